@@ -28,6 +28,9 @@ def _is_state_store(s: ast.stmt, key: str) -> bool:
         and t.slice.value == key for t in s.targets)
 
 
+SAVE_CALLS = ("save_step", "self.data_handler.save_time_step")     # the closure of today's tree, or its body read at the call site
+
+
 def classify(fi: FuncInfo, cfg: CFG) -> Dict[int, str]:
     """CFG node id -> event (LABEL / CALL / UPDATE / SAVE / ADVANCE)."""
     ev: Dict[int, str] = {}
@@ -43,7 +46,7 @@ def classify(fi: FuncInfo, cfg: CFG) -> Dict[int, str]:
                 norm(x) == "self.values" and isinstance(getattr(x, "ctx", None), ast.Store)
                 for t in s.targets for x in ast.walk(t)):
             ev[n.id] = "UPDATE"
-        elif any(isinstance(c, ast.Call) and norm(c.func) in ("save_step", "self.data_handler.save_time_step")
+        elif any(isinstance(c, ast.Call) and norm(c.func) in SAVE_CALLS
                  for c in ast.walk(s)):
             ev[n.id] = "SAVE"
         elif any(isinstance(c, ast.Call) and norm(c.func) == "self.function" for c in ast.walk(s)):
@@ -69,41 +72,45 @@ def typestate(fi: FuncInfo):
     ev = classify(fi, cfg)
     kinds = set(ev.values())
     need = {"LABEL", "UPDATE", "SAVE", "ADVANCE", "CALL"}
+    if "CALL" not in kinds and any(ev.get(n.id) == "UPDATE" and any(isinstance(c, ast.Call) and norm(c.func) == "self.function"
+                                                                    for c in ast.walk(n.ast)) for n in cfg.nodes if n.ast is not None):
+        kinds.add("CALL")       # the update is stored by the statement that calls it
     if not need <= kinds:
         raise AnalysisError(f"_run_stage lost the events {sorted(need - kinds)} (label/update/save/advance idioms changed)")
+    # a state (n, st) is "node n is entered in typestate st"; the event of n is applied on its normal exits only: an exception
+    # raised inside `new_dt, *self.values = self.function(...)` leaves the statement before the store
     start = (cfg.entry, "S0")
     prev: Dict[Tuple[int, str], Tuple[Tuple[int, str], str]] = {}
     seen = {start}
     dq = deque([start])
-    problems = []   # (node, state, what)
+    problems = []   # (predecessor state, node, edge label, what)
     visits: Dict[int, Set[str]] = {}
     while dq:
         nid, st = dq.popleft()
+        e = ev.get(nid)
+        ns = st
+        bad = None
+        visits.setdefault(nid, set()).add(st)
+        if e == "SAVE":
+            if st != "S0":
+                bad = f"frame saved while the state holds {'one more update than' if st == 'S1' else 'a different time than'} its label says"
+        elif e == "UPDATE":
+            if st != "S0":
+                bad = "a second update is applied before the frame label was refreshed"
+            ns = "S1"
+        elif e == "ADVANCE":
+            if st != "S1":
+                bad = "the clock advances without a new update"
+            ns = "S2"
+        elif e == "LABEL":
+            if st == "S1":
+                bad = "the step label is refreshed although the clock was not advanced for the last update"
+            ns = "S0"
+        if bad and (nid, st) in prev:
+            src, lab = prev[(nid, st)]
+            problems.append((src, nid, lab, bad))
         for succ, lab in cfg.succ[nid]:
-            e = ev.get(succ)
-            ns = st
-            bad = None
-            if lab == "exc" and ev.get(nid) in ("UPDATE",):
-                pass
-            if e == "SAVE":
-                if st != "S0":
-                    bad = f"frame saved while the state holds {'one more update than' if st == 'S1' else 'a different time than'} its label says"
-            elif e == "UPDATE":
-                if st != "S0":
-                    bad = "a second update is applied before the frame label was refreshed"
-                ns = "S1"
-            elif e == "ADVANCE":
-                if st != "S1":
-                    bad = "the clock advances without a new update"
-                ns = "S2"
-            elif e == "LABEL":
-                if st == "S1":
-                    bad = "the step label is refreshed although the clock was not advanced for the last update"
-                ns = "S0"
-            key = (succ, ns)
-            visits.setdefault(succ, set()).add(st)
-            if bad:
-                problems.append(((nid, st), succ, lab, bad))
+            key = (succ, st if lab == "exc" else ns)
             if key not in seen:
                 seen.add(key)
                 prev[key] = ((nid, st), lab)
@@ -221,7 +228,7 @@ def _residue_kind(test: ast.expr) -> Optional[Tuple[str, str]]:
 def save_points(ctx, frs):
     fn = frs.node
     pm = parent_map(fn)
-    saves = [n for n in own_nodes(fn) if isinstance(n, ast.Expr) and isinstance(n.value, ast.Call) and norm(n.value.func) == "save_step"]
+    saves = [n for n in own_nodes(fn) if isinstance(n, ast.Expr) and isinstance(n.value, ast.Call) and norm(n.value.func) in SAVE_CALLS]
     loops = [n for n in own_nodes(fn) if isinstance(n, ast.For)]
     if len(loops) != 1:
         raise AnalysisError("_run_stage no longer has exactly one loop")
@@ -264,8 +271,10 @@ def save_points(ctx, frs):
            where=frs.fq, construct="save flag", loc=loc(frs, inloop[0]), message=f"save flags: {f1}, {f2}",
            consequence="thermalisation steps are recorded")
     # the label passed to save_step is the loop index
+    # (closure form: the index; body read at the call site: the label dictionary the index was stored in)
     args = [norm(s.value.args[0]) if s.value.args else None for s in saves]
-    ctx.ob("R05.2", "save_step is given the loop index", all(a == norm(lp.target) for a in args), detail=args, where=frs.fq,
+    want = [norm(lp.target) if norm(s.value.func) == "save_step" else "self.state" for s in saves]
+    ctx.ob("R05.2", "save_step is given the loop index", args == want, detail=args, where=frs.fq,
            construct="save_step argument", message=f"save_step arguments {args}", consequence="frame 0 handling (no records) is applied to the wrong frame")
 
 
@@ -334,7 +343,7 @@ def records(ctx, frs):
            consequence="records of two steps overwrite each other or leave gaps")
     clears = [n for n in own_nodes(fnr) if isinstance(n, ast.Expr) and isinstance(n.value, ast.Call)
               and norm(n.value.func) == "self.running_state.clear"]
-    saves = [n for n in own_nodes(fnr) if isinstance(n, ast.Expr) and isinstance(n.value, ast.Call) and norm(n.value.func) == "save_step"
+    saves = [n for n in own_nodes(fnr) if isinstance(n, ast.Expr) and isinstance(n.value, ast.Call) and norm(n.value.func) in SAVE_CALLS
              and any(isinstance(g, ast.For) for g, _ in guards_of(fnr, n, pmr))]
     ok = len(clears) == 1 and len(saves) == 1
     if ok:
@@ -707,7 +716,8 @@ def stop_test(ctx, frs, cfg, ev):
     if stops:
         # the update call is dominated by the false branch of the stop test in the same iteration
         gnode = cfg.node_of(stops[0][1][0]).id
-        calls = [nid for nid, e in ev.items() if e == "CALL"]
+        calls = [n.id for n in cfg.nodes if n.kind == "stmt" and n.ast is not None and any(
+            isinstance(c, ast.Call) and norm(c.func) == "self.function" for c in ast.walk(n.ast))]
         dom = cfg.dominators()
         ok = bool(calls) and all(gnode in dom.get(c, set()) for c in calls) and \
             all(cfg.path(gnode, c, skip_edges=("false", "exc")) is None or True for c in calls)
